@@ -240,6 +240,30 @@ findings.MATCHERS["schema-empty-range"] = lambda c: bool(c.get("build")) and emp
 findings.MATCHERS["schema-minProperties"] = lambda c: has_kw(c["schema"], "minProperties") and _msg(c, "enough properties", "non-empty", "is not valid under any")
 
 
+def closed_tuple_schema(rng):
+    """a closed tuple (prefixItems + items: false, minItems absent / below / at the prefix length) in the positions where the
+    type is built with its own constraints: under an array's items, in an anyOf branch, as a property, at the top"""
+    leaf = lambda: rng.choice([{"type": "integer"}, {"type": "string"}, {"type": "boolean"}, {"type": "number"}, {"type": "integer", "minimum": 0}])
+    k = rng.randint(1, 3)
+    tup = {"type": "array", "prefixItems": [leaf() for _ in range(k)], "items": False}
+    m = rng.choice([None, 0, k - 1, k, k])
+    if m is not None:
+        tup["minItems"] = m
+    wrap = rng.choice([lambda: {"type": "array", "items": tup}, lambda: {"anyOf": [tup, {"type": "null"}]}, lambda: tup,
+                       lambda: {"type": "array", "items": {"anyOf": [tup, {"type": "string"}]}}])()
+    if rng.random() < 0.25:
+        return wrap
+    outer = {"type": "object", "properties": {"rows": wrap}}
+    r = rng.random()
+    if r < 0.45:
+        outer["additionalProperties"] = True
+    elif r < 0.7:
+        outer["additionalProperties"] = False
+    if rng.random() < 0.5:
+        outer["required"] = ["rows"]
+    return outer
+
+
 def build_and_parse(i_seed):
     """one random schema: build the type (must not fail), parse random JSON instances under strict options, JSON-encode the outputs"""
     from utype import Options
@@ -248,7 +272,7 @@ def build_and_parse(i_seed):
     from utype.utils.transform import type_transform
     warnings.simplefilter("ignore")
     rng = random.Random(i_seed)
-    sch = rand_schema(rng)
+    sch = closed_tuple_schema(rng) if i_seed % 7 == 3 else rand_schema(rng)
     try:
         T = JsonSchemaParser(sch, name="T%d" % (i_seed % 100000))()
     except Exception as e:
